@@ -75,7 +75,7 @@ def build_case(cid, rng):
     fn_text = "%s%sfn subj%s(%s)%s%s %s" % (vis, "async " if m.is_async else "", g, ", ".join(ps), m.ret_text(), where, body)
     # the fn may be stamped out by macro_rules!, with the name of the dependency parameter and / or its type supplied by the
     # invocation (`$d:ident`: call-site hygiene; `$t:ty`: the type arrives wrapped in a None-delimited group)
-    wrap_mode = rng.choice(["none"] * 6 + ["ident", "ty", "both"])
+    wrap_mode = rng.choice(["none"] * 6 + ["ident", "ty", "both", "refty"])
     if wrap_mode != "none" and "$" not in fn_text and shape in SHAPES:
         import re as _re
         matcher, args = [], []
@@ -87,6 +87,11 @@ def build_case(cid, rng):
             fn_text = fn_text.replace(": " + dty, ": " + dty.replace(cty, "$t"), 1)
             matcher.append("$t:ty")
             args.append(cty)
+        if wrap_mode == "refty":
+            # the whole parameter type, reference included, is one `ty` fragment
+            fn_text = fn_text.replace(": " + dty, ": $t", 1)
+            matcher.append("$t:ty")
+            args.append(dty)
         inv = L.pop()
         L.append("macro_rules! make_leaf {\n    (%s) => {\n        %s\n        %s\n    };\n}\nmake_leaf!(%s);" % (
             ", ".join(matcher), inv, fn_text.replace("\n", "\n        "), ", ".join(args)))
